@@ -62,3 +62,12 @@ let out_str (s : string) = emit s
 (* random tape: the draws the implementation's mt19937 produced for the same seed *)
 let tape_of (a : float array) : nat -> float = fun n ->
   let i = int_of_nat n in if i < Array.length a then a.(i) else nan
+
+(* queries thread the tape position of their world through a reference *)
+let out_res_st (st : nat ref) (r : (float list * nat) res) =
+  (match r with Ok (_, t) -> st := t | _ -> ());
+  out_res r
+let out_res1_st (st : nat ref) (r : (float * nat) res) =
+  (match r with Ok (_, t) -> st := t | _ -> ());
+  out_res1 r
+let no_tape : nat -> float = fun _ -> nan
